@@ -46,15 +46,23 @@ pub const SIGS: &[Sig] = &[
     Sig { name: "attrs", args: &[Ty::MapStrInt] },
     Sig { name: "data", args: &[Ty::Any] },
     Sig { name: "grant", args: &[Ty::Str, Ty::Int, Ty::Str] },
+    // the same names with another arity: distinct predicates that must never match each other
+    Sig { name: "right", args: &[Ty::Str] },
+    Sig { name: "user", args: &[Ty::Int, Ty::Int] },
+    Sig { name: "edge", args: &[Ty::Int] },
+    Sig { name: "resource", args: &[Ty::Str, Ty::Str] },
 ];
 
 const CORE: &[usize] = &[0, 1, 2, 3, 4, 5, 6, 7, 8, 9];
 const V30_EXTRA: &[usize] = &[10, 11, 12, 13, 14, 15, 19];
 const V33_EXTRA: &[usize] = &[16, 17, 18];
+const OVERLOADS: &[usize] = &[20, 21, 22, 23];
 
 pub const STRINGS: &[&str] = &[
     "read", "write", "resource", "file1", "file2", "/a/file", "admin", "x",
 ];
+/// patterns within the subset of regular expressions the reference evaluator implements
+pub const REGEXES: &[&str] = &["^file", "file[0-9]$", "^/a/.*", "re.d", "e$", "^x?$", "[a-z]+[12]", "^(read|write)$", "i"];
 pub const INTS: &[i64] = &[-2, -1, 0, 1, 2, 3];
 pub const BIGS: &[i64] = &[i64::MIN, i64::MAX, 0, 1 << 40];
 pub const DATES: &[u64] = &[0, 1_600_000_000, 1_900_000_000];
@@ -80,6 +88,8 @@ pub struct GenCfg {
     pub strings: Vec<&'static str>,
     pub ints: Vec<i64>,
     pub allow_previous: bool,
+    /// use predicate names with more than one arity
+    pub overloads: bool,
 }
 
 impl GenCfg {
@@ -104,6 +114,7 @@ impl GenCfg {
             strings,
             ints,
             allow_previous: true,
+            overloads: rng.chance(1, 3),
         }
     }
 }
@@ -167,6 +178,9 @@ impl<'a> Gen<'a> {
     }
 
     fn pick_sig(&mut self) -> &'static Sig {
+        if self.cfg.overloads && self.rng.chance(1, 5) {
+            return &SIGS[*self.rng.pick(OVERLOADS)];
+        }
         // core predicates most of the time
         if self.rng.chance(3, 4) {
             &SIGS[*self.rng.pick(CORE)]
@@ -359,6 +373,17 @@ impl<'a> Gen<'a> {
                 Expr::bin(op, arith, Expr::val(self.constant(Ty::Int)))
             }
             2 => {
+                if self.rng.chance(1, 3) {
+                    // .matches(): a literal pattern, or one computed from the binding
+                    let l = self.str_operand(env);
+                    let pat = if self.rng.chance(2, 3) {
+                        Expr::val(Term::Str(self.rng.pick(REGEXES).to_string()))
+                    } else {
+                        let p = Expr::val(Term::Str(self.rng.pick(&["^", "^/a/", "^.i", ""]).to_string()));
+                        Expr::bin(BinOp::Add, p, self.str_operand(env))
+                    };
+                    return Expr::bin(BinOp::Regex, l, pat);
+                }
                 let op = self
                     .rng
                     .pick(&[BinOp::Prefix, BinOp::Suffix, BinOp::Contains])
@@ -690,7 +715,8 @@ impl<'a> Gen<'a> {
                 return r;
             }
         }
-        let (body, exprs, scopes, env) = self.body(owner_is_authorizer, false);
+        // (one rule in ten has no body atom: it fires once, whatever the facts)
+        let (body, exprs, scopes, env) = self.body(owner_is_authorizer, true);
         // head: a predicate whose arguments can be filled from body variables or constants
         let sig = if self.rng.chance(2, 3) {
             &SIGS[*self.rng.pick(&[0usize, 5, 6, 7, 8, 9, 1, 3])]
